@@ -126,8 +126,7 @@ Lemma allot_ok_spec te allots : allot_ok te allots = true ->
      let nvars := List.length (filter is_avar allots) in
      let nrem := List.length (filter is_remaining allots) in
      (nrem = O -> nvars = O -> Qcompare sum 1 = Eq)
-     /\ (nrem = O -> nvars <> 1%nat)
-     /\ ((nrem <> O \/ (2 <= nvars)%nat) -> Qcompare sum 1 = Lt).
+     /\ Qcompare sum 1 <> Gt.
 Proof.
   unfold allot_ok. intros H. apply andb_prop in H. destruct H as [H H3]. apply andb_prop in H. destruct H as [H1 H2].
   fold (lits allots) in H3. change (fun a : allot => match a with AVar _ _ => true | _ => false end) with is_avar in H3.
@@ -152,13 +151,12 @@ Proof.
       rewrite E, filter_app in En.
       change (filter is_remaining (a :: b :: post')) with (if is_remaining a then a :: filter is_remaining (b :: post') else filter is_remaining (b :: post')) in En.
       rewrite Ha, app_length in En. cbn [List.length] in En. lia.
-  - cbv zeta. destruct (List.length (filter is_remaining allots)) as [|nr] eqn:En; destruct (List.length (filter is_avar allots)) as [|[|nv]] eqn:Ev; cbn [Nat.eqb andb] in H3.
-    + repeat split; try lia; try discriminate. intros _ _. apply Qeq_bool_iff in H3. now apply Qeq_alt.
-    + discriminate.
-    + repeat split; try lia; try discriminate. intros _. destruct (Qcompare _ 1); try discriminate; reflexivity.
-    + repeat split; try lia. intros _. destruct (Qcompare _ 1); try discriminate; reflexivity.
-    + repeat split; try lia. intros _. destruct (Qcompare _ 1); try discriminate; reflexivity.
-    + repeat split; try lia. intros _. destruct (Qcompare _ 1); try discriminate; reflexivity.
+  - cbv zeta. destruct (List.length (filter is_remaining allots)) as [|nr] eqn:En; destruct (List.length (filter is_avar allots)) as [|nv] eqn:Ev; cbn [Nat.eqb andb] in H3.
+    + split; [intros _ _; apply Qeq_bool_iff in H3; now apply Qeq_alt|].
+      apply Qeq_bool_iff in H3. apply Qeq_alt in H3. rewrite H3. discriminate.
+    + split; [intros _ Hx; discriminate Hx|]. destruct (Qcompare _ 1); try discriminate; intros X; discriminate X.
+    + split; [intros Hx; discriminate Hx|]. destruct (Qcompare _ 1); try discriminate; intros X; discriminate X.
+    + split; [intros Hx; discriminate Hx|]. destruct (Qcompare _ 1); try discriminate; intros X; discriminate X.
 Qed.
 
 Lemma bad_sum_quiet allots te rng s :
@@ -166,7 +164,7 @@ Lemma bad_sum_quiet allots te rng s :
   let acc := fold_left (fun acc a => acc_step a acc) allots (mkacc 0 None []) in
   ec (check_bad_allotment_sum (aa_sum acc) rng (aa_remaining acc) (aa_vars acc) s) = ec s.
 Proof.
-  intros H. destruct (allot_ok_spec te allots H) as (_ & _ & H0 & H1 & H2). cbv zeta in *.
+  intros H. destruct (allot_ok_spec te allots H) as (_ & _ & H0 & H1). cbv zeta in *.
   pose proof (sum_fold allots (mkacc 0 None [])) as Hs. cbn [aa_sum] in Hs. rewrite Qplus_0_l in Hs.
   pose proof (rem_fold allots (mkacc 0 None [])) as Hr. cbn [aa_remaining] in Hr.
   pose proof (vars_fold allots (mkacc 0 None [])) as Hv. cbn [aa_vars List.length] in Hv.
@@ -183,12 +181,7 @@ Proof.
     destruct (aa_vars acc) as [|v [|v2 vars]] eqn:Eva; try reflexivity; [|now apply ec_emit_warning].
     exfalso. destruct (proj1 Hr eq_refl) as [_ Hn]. cbn in Hv.
     discriminate (H0 Hn (eq_sym Hv)).
-  - exfalso. destruct (List.length (filter is_remaining allots)) as [|nr] eqn:En.
-    + destruct (List.length (filter is_avar allots)) as [|[|nv]] eqn:Ev.
-      * discriminate (H0 eq_refl eq_refl).
-      * exact (H1 eq_refl eq_refl).
-      * assert (X : Gt = Lt) by (apply H2; right; lia). discriminate X.
-    + assert (X : Gt = Lt) by (apply H2; left; lia). discriminate X.
+  - exfalso. apply H1. reflexivity.
 Qed.
 
 (* ---- sources ---- *)
